@@ -242,23 +242,30 @@ def Working.toXKey (w : Working) : XKey :=
   { version := w.version, depth := w.depth, parentFp := w.parentFp, index := w.index,
     chain := w.chain, key := w.key }
 
+/-- `_derive`, first stage: the working copy at the final depth, version forced when asked
+    (`if forced_version:` — None and the empty string are both "not forced") -/
+def forceStage (x : XKey) (final : Nat) (forced : Option Bytes) : Except Err Working :=
+  let w0 : Working :=
+    { version := x.version, depth := final, parentFp := x.parentFp, index := x.index, chain := x.chain,
+      key := x.key, prvKeyInt := if x.isPrivate then x.prvInt else 0 }
+  match forced with
+  | none => Except.ok w0
+  | some [] => Except.ok w0
+  | some f => (forceVersion E w0.version f).map fun v => { w0 with version := v }
+
+/-- `_derive`, second stage: `if indexes:` walk the path privately or publicly, then set the index -/
+def deriveWalk (isPrv : Bool) (w : Working) (idx : List Nat) : Except Err XKey :=
+  match idx.getLast? with
+  | none => .ok w.toXKey
+  | some last =>
+    ((if isPrv then prvPathB E w idx.dropLast last else pubPathB E w idx.dropLast last)).map
+      fun (w' : Working) => Working.toXKey { w' with index := last }
+
 /-- `_derive(xkey, indexes, forced_version)` -/
 def deriveB (x : XKey) (idx : List Nat) (forced : Option Bytes) : Except Err XKey :=
   let final := x.depth + idx.length
   if final > MAX_DEPTH then .error .depth else
-  let w0 : Working :=
-    { version := x.version, depth := final, parentFp := x.parentFp, index := x.index, chain := x.chain,
-      key := x.key, prvKeyInt := if x.isPrivate then x.prvInt else 0 }
-  -- `if forced_version:` — None and the empty string are both "not forced"
-  (match forced with
-   | none => Except.ok w0
-   | some [] => Except.ok w0
-   | some f => (forceVersion E w0.version f).map fun v => { w0 with version := v }).bind fun w =>
-  match idx.getLast? with
-  | none => .ok w.toXKey
-  | some last =>
-    ((if x.isPrivate then prvPathB E w idx.dropLast last else pubPathB E w idx.dropLast last)).map
-      fun (w' : Working) => Working.toXKey { w' with index := last }
+  (forceStage E x final forced).bind fun w => deriveWalk E x.isPrivate w idx
 
 /-! ### validation, entry points -/
 
@@ -339,6 +346,26 @@ def deriveFromAccountRange (x : XKey) (branch : Nat) (addrs : List Nat) (only01 
   (deriveB E x [branch] none).bind fun b =>
     (addrs.mapM fun a => deriveB E b [a] none).bind fun ys =>
       (ys.mapM fun y => assertValid E y).map fun _ => ys
+
+/-- the steps of `pub_key_derivation_tweaks`: the chain holds the point, `key` its serialization -/
+def walkTweaks (key chain : Bytes) (P : α) : List Nat → Except Err (List Bytes)
+  | [] => .ok []
+  | i :: p =>
+    let h := split E chain (key ++ beBytes 4 i)
+    if ofBE h.1 ≥ nN E then .error (.childIL i) else
+    let P' := E.o.add P (E.o.mul ((ofBE h.1 : Nat) : Int) E.o.gen)
+    if E.o.isZero P' then .error (.childInf i) else
+    (walkTweaks (serPoint E P') h.2 P' p).map fun ts => h.1 :: ts
+
+/-- `pub_key_derivation_tweaks(pub_key, chain_code, der_path)`: the 32-byte tweak each unhardened step adds;
+    a hardened index anywhere is refused before any step is walked -/
+def pubTweaks (key chain : Bytes) (idx : List Nat) : Except Err (List Bytes) :=
+  if key.length ≠ 33 ∨ chain.length ≠ 32 then .error .badField else
+  if idx.any (· > Gen.Bip32.PATH_MAX_INDEX) then .error .badField else
+  if idx.any (· ≥ HARDENED) then .error .hardenedPub else
+  match parsePoint E key with
+  | none => .error .badKey
+  | some P => walkTweaks E key chain P idx
 
 /-- `bip85._entropy_from_der_path` behind `entropy_from_der_path` -/
 def bip85Entropy (x : XKey) (idx : List Nat) : Except Err Bytes :=
